@@ -634,6 +634,15 @@ class BuiltinMixin:
             return [(st, st.alloc(HList(items=[VTuple(t) for t in zip(*lists)])))]
         raise Unsupported("zip over symbolic iterables")
 
+    def b_itertools_zip_longest(self, st, args, kwargs):
+        lists = [self.concrete_items(st, a) for a in args]
+        if any(x is None for x in lists):
+            raise Unsupported("zip_longest over symbolic iterables")
+        fill = kwargs.get("fillvalue", NONE)
+        n = max((len(x) for x in lists), default=0)
+        rows = [VTuple(tuple(x[i] if i < len(x) else fill for x in lists)) for i in range(n)]
+        return [(st, st.alloc(HList(items=rows)))]
+
     def b_range(self, st, args, kwargs):
         vals = [concrete(a) for a in args]
         if all(ok for ok, _ in vals):
